@@ -8,5 +8,5 @@ mod metrics;
 
 pub use metrics::{
     ColumnDefinition, LabelCardinality, MetricSchema, MetricSchemaBuilder, MetricType,
-    METRIC_NAME_FIELD, TIMESTAMP_FIELD, VALUE_F64_FIELD, VALUE_I64_FIELD, VALUE_U64_FIELD,
+    METRIC_NAME_FIELD, TIMESTAMP_FIELD, VALUE_F64_FIELD, VALUE_I64_FIELD, VALUE_U64_FIELD, is_fixed_column_name,
 };
